@@ -13,6 +13,7 @@ import Golib.Hash.CrcProofs
 import Golib.Hash.MurmurProofs
 import Golib.Hash.Hexa32Proofs
 import Golib.Hash.BitIpProofs
+import Golib.Hash.IpProofs
 
 namespace C15
 
@@ -172,7 +173,63 @@ theorem octet_roundtrip : ∀ n : Fin 256, IpUtil.octet (Strconv.itoaNat n.val) 
 example : IpUtil.toString [127, 0, 0, 1] = some "127.0.0.1".toList := by decide +kernel
 example : IpUtil.canonical "127.0.0.1".toList := ⟨127, 0, 0, 1, by decide, by decide, by decide, by decide, by decide +kernel⟩
 
+/-- `ToBytes` is total: four bytes for every text -/
+theorem ip_toBytes_total (s : List Char) : (IpUtil.toBytes s).length = 4 ∧ WFB (IpUtil.toBytes s) :=
+  IpUtil.toBytes_wf s
+
+/-- **which texts `ToBytes` accepts and what it makes of them**: a text of exactly four dot-separated parts
+    gives one byte per part — the part parsed as `strconv.Atoi` does (optional sign, decimal digits only,
+    within int64) and reduced mod 256, or 0 if it does not parse; every other text gives 0.0.0.0.
+    So leading `+`/`-`, leading zeros and values outside 0..255 are accepted (and wrapped), garbage parts
+    count as 0. -/
+theorem ip_toBytes_any_text :
+    (∀ a b c d : List Char, (∀ x ∈ a, x ≠ '.') → (∀ x ∈ b, x ≠ '.') → (∀ x ∈ c, x ≠ '.') → (∀ x ∈ d, x ≠ '.') →
+        IpUtil.toBytes (a ++ '.' :: (b ++ '.' :: (c ++ '.' :: d)))
+          = [IpUtil.octet a, IpUtil.octet b, IpUtil.octet c, IpUtil.octet d])
+    ∧ (∀ s, (Strconv.splitOn '.' s).length ≠ 4 → IpUtil.toBytes s = [0, 0, 0, 0])
+    ∧ (∀ p v, Strconv.atoi p = some v → IpUtil.octet p = (v % 256).toNat)
+    ∧ (∀ p, Strconv.atoi p = none → IpUtil.octet p = 0) :=
+  ⟨IpUtil.toBytes_parts, IpUtil.toBytes_other, IpUtil.octet_of_atoi, IpUtil.octet_of_fail⟩
+
+/-- concrete non-canonical texts -/
+theorem ip_noncanonical_examples :
+    IpUtil.toBytes "+1.01.256.-1".toList = [1, 1, 0, 255]
+    ∧ IpUtil.toBytes "1.2.3".toList = [0, 0, 0, 0] ∧ IpUtil.toBytes "1.2.3.4.5".toList = [0, 0, 0, 0]
+    ∧ IpUtil.toBytes "a.b.c.d".toList = [0, 0, 0, 0] ∧ IpUtil.toBytes " 1.2.3.4".toList = [0, 2, 3, 4]
+    ∧ IpUtil.toBytes "99999999999999999999.1.1.1".toList = [0, 1, 1, 1]
+    ∧ IpUtil.toBytes "-9223372036854775808.0.0.300".toList = [0, 0, 0, 44] := by decide +kernel
+
+/-- **`ToString ∘ ToBytes` fixes a text iff it is a canonical dotted quad**, and canonicity is the decidable
+    syntactic condition "four parts, each the decimal numeral of a value ≤ 255" -/
+theorem ip_text_fixed_iff (s : List Char) :
+    (IpUtil.toString (IpUtil.toBytes s) = some s ↔ IpUtil.canonical s)
+    ∧ (IpUtil.canonical s ↔ IpUtil.isCanonical s = true) :=
+  ⟨IpUtil.toString_toBytes_iff s, IpUtil.canonical_iff s⟩
+
+/-- `ToString` is injective on addresses; the dotted text of an int32 parses back to that int32 -/
+theorem ip_text_int_roundtrip (i : Int) (hi : BitUtil.isI32 i) :
+    (IpUtil.toStringFrInt i).map (fun s => IpUtil.toInt (IpUtil.toBytes s)) = some (some i) :=
+  IpUtil.toInt_toBytes_toStringFrInt i hi
+
+theorem ip_toString_injective (a b c d a' b' c' d' : Nat) (ha : a < 256) (hb : b < 256) (hc : c < 256) (hd : d < 256)
+    (ha' : a' < 256) (hb' : b' < 256) (hc' : c' < 256) (hd' : d' < 256)
+    (h : IpUtil.toString [a, b, c, d] = IpUtil.toString [a', b', c', d']) : [a, b, c, d] = [a', b', c', d'] :=
+  IpUtil.toString_injective a b c d a' b' c' d' ha hb hc hd ha' hb' hc' hd' h
+
+example : IpUtil.isCanonical "10.0.0.255".toList = true ∧ IpUtil.isCanonical "10.0.0.256".toList = false
+    ∧ IpUtil.isCanonical "010.0.0.1".toList = false := by decide +kernel
+
 /-! ## stringutil.HashCode -/
+
+/-- the pinned definition as a recurrence: `HashCode("") = 0`, `HashCode(s + b) = 31·HashCode(s) + b` in int64 -/
+theorem hashCode_recurrence (s : Bytes) (b : Nat) :
+    StrHash.hashCode [] = 0 ∧ StrHash.hashCode (s ++ [b]) = BitUtil.wrap64 (31 * StrHash.hashCode s + (b : Int)) := by
+  constructor
+  · rfl
+  · unfold StrHash.hashCode; rw [List.foldl_append]; rfl
+
+example : StrHash.hashCode [104, 105] = 3329 := by decide +kernel
+
 
 /-- `int32(HashCode(s))` is Java's `String.hashCode` recurrence in 32-bit arithmetic -/
 theorem hashCode_java (s : Bytes) : BitUtil.wrap32 (StrHash.hashCode s) = StrHash.javaHashCode s :=
